@@ -36,6 +36,20 @@ def private_env():
     return env
 
 
+def locked_env():
+    """a keyring whose only secret key is protected by a passphrase nobody supplies (batch mode, no pinentry): gpg starts
+    the cleartext message, fails at the signature and exits non-zero. The suite's public key is there for verifying."""
+    import subprocess
+    from gemato.openpgp import IsolatedGPGEnvironment
+    env = IsolatedGPGEnvironment()
+    env.import_key(io.BytesIO(VALID_PUBLIC_KEY))
+    e = dict(os.environ, GNUPGHOME=env.home)
+    subprocess.run(['gpg', '--batch', '--pinentry-mode', 'loopback', '--passphrase', 'nobody-knows',
+                    '--quick-gen-key', 'locked@example.com', 'ed25519', 'sign', 'never'], env=e, check=True, capture_output=True)
+    subprocess.run(['gpgconf', '--kill', 'gpg-agent'], env=e, capture_output=True)      # nothing cached by the agent
+    return env
+
+
 def clearsign(env, text, extra_args=()):
     from gemato.openpgp import GNUPG
     from gemato.exceptions import OpenPGPSigningFailure
